@@ -68,35 +68,6 @@ mod verif_c14 {
         std::mem::forget(st);
     }
 
-    // format_bar index safety for every accepted progress-char count and every width/fraction (struct level, no rendering loop)
-    // @harness id=C14 tier=quick timeout=900 mem=8
-    // @bounds progress char count 2..=10 (symbolic), width 0..=65535, fraction: every f32 in [0,1], char_width in {1,2}
-    #[kani::proof]
-    #[kani::unwind(12)]
-    #[kani::stub(std::hash::RandomState::new, stub_rs)]
-    #[kani::stub(console::colors_enabled, stub_false)]
-    #[kani::stub(console::colors_enabled_stderr, stub_false)]
-    fn c14_format_bar_indices() {
-        let n: usize = kani::any();
-        kani::assume(n >= 2 && n <= 10);
-        let cw: usize = kani::any();
-        kani::assume(cw == 1 || cw == 2);
-        let st = rig_style(Vec::new(), ascii_set(2, 0), ascii_set(n, 0), cw);
-        let fract: f32 = kani::any();
-        kani::assume(fract >= 0.0 && fract <= 1.0);
-        let width: usize = kani::any();
-        kani::assume(width <= 65535);
-        let d = st.format_bar(fract, width, None);
-        if let Some(c) = d.cur {
-            assert!(c < n);
-        }
-        assert!(d.filled <= width / cw);
-        kani::cover!(d.cur.is_some() && n == 10);
-        kani::cover!(d.cur.is_none() && d.filled > 0);
-        std::mem::forget(d);
-        std::mem::forget(st);
-    }
-
     // ---- rejected configurations: the *builder* must panic (each harness calls only the builder, with concrete
     //      arguments, so the single path must end in a panic) ----
     // @harness id=C14 tier=quick timeout=600 mem=6 kind=should_panic
